@@ -14,7 +14,7 @@ real rp2_decimal module configures, and the FloatOperation trap it sets.
 from symx.api import us_of
 
 PROPS = ("C04",)
-BUDGET = {"quick": 900, "thorough": 3600}
+BUDGET = {"quick": 900, "thorough": 1500}
 CHUNK = 60
 
 LOTS = {
